@@ -9,7 +9,10 @@ From P2 Require Import Base.Prelude Sem.Num Lex.Token Syn.Ast Syn.Parse Syn.Rend
 Local Open Scope N_scope.
 
 (* ---------- enumeration ---------- *)
-Record alpha := mkAlpha { al_leaves : list sexp; al_un : list (sexp -> sexp); al_bin : list str }.
+(* al_bin2: further two-operand forms (calls with two arguments), enumerated after the binary operators *)
+Record alpha := mkAlpha { al_leaves : list sexp; al_un : list (sexp -> sexp); al_bin : list str;
+                          al_bin2 : list (sexp -> sexp -> sexp) }.
+Definition al_nbin (al : alpha) : N := N.of_nat (length (al_bin al) + length (al_bin2 al)).
 
 Fixpoint sumN (l : list N) : N := match l with [] => 0 | x :: r => x + sumN r end.
 Fixpoint mul2 (a b : list N) : list N :=
@@ -21,7 +24,7 @@ Fixpoint counts (al : alpha) (n : nat) : list N :=
   | O => [N.of_nat (length (al_leaves al))]
   | S m =>
       let cs := counts al m in
-      cs ++ [N.of_nat (length (al_un al)) * last cs 0 + N.of_nat (length (al_bin al)) * sumN (mul2 cs (rev cs))]
+      cs ++ [N.of_nat (length (al_un al)) * last cs 0 + al_nbin al * sumN (mul2 cs (rev cs))]
   end.
 
 Definition s_dummy : sexp := SName [].
@@ -44,11 +47,14 @@ Fixpoint unrank (al : alpha) (cs : list N) (fuel : nat) (n : nat) (i : N) {struc
                | l :: r =>
                    let cl := nth l cs 0 in
                    let cr := nth (m - l) cs 0 in
-                   let blk := N.of_nat (length (al_bin al)) * cl * cr in
+                   let blk := al_nbin al * cl * cr in
                    if i <? blk then
                      let rest := i mod (cl * cr) in
-                     SBin (nth (N.to_nat (i / (cl * cr))) (al_bin al) [])
-                          (unrank al cs f l (rest / cr)) (unrank al cs f (m - l) (rest mod cr))
+                     let k := N.to_nat (i / (cl * cr)) in
+                     let x := unrank al cs f l (rest / cr) in
+                     let y := unrank al cs f (m - l) (rest mod cr) in
+                     if (k <? length (al_bin al))%nat then SBin (nth k (al_bin al) []) x y
+                     else (nth (k - length (al_bin al)) (al_bin2 al) (fun a _ => a)) x y
                    else go r (i - blk)
                end) (seq 0 (S m)) (i - nu * cu)
       end
@@ -59,16 +65,24 @@ Definition nm (c : N) : sexp := SName [c].
 Definition bool_alpha : alpha :=
   mkAlpha [nm 97; nm 98; nm 99; SName [116; 114; 117; 101]; SName [102; 97; 108; 115; 101]]
           (map (fun u => SUn (fst u)) ex_bool_unary)
-          (map (fun o => fst (fst (fst o))) ex_bool_ops).
+          (map (fun o => fst (fst (fst o))) ex_bool_ops) [].
 
 Definition float_alpha : alpha :=
   mkAlpha [nm 97; nm 98; SNum [50]; SNum [48; 46; 53]]
           [SUn [45]; fun e => SBin [47] e (SNum [50])]
-          [[61]; [60]; [43]; [45]; [42]].
+          [[61]; [60]; [43]; [45]; [42]] [].
 
 (* prefix-operator variants of the float table: prefix operators at every operand position *)
+(* ... and calls of the functions of the variants: one-argument and two-argument forms of every registration API *)
+Definition fn_sum : str := [115; 117; 109]. Definition fn_max : str := [109; 97; 120].
+Definition fn_sum3 : str := [115; 117; 109; 51]. Definition fn_cnt : str := [99; 110; 116].
+Definition fn_avg2 : str := [97; 118; 103; 50]. Definition fn_half : str := [104; 97; 108; 102].
 Definition float_var_alpha (unary : list str) : alpha :=
-  mkAlpha [nm 97; nm 98; SNum [50]] (map SUn unary) [[61]; [43]; [45]; [42]; [94]].
+  mkAlpha [nm 97; nm 98; SNum [50]]
+          (map SUn unary ++ [fun e => SCall fn_sum [e]; fun e => SCall fn_half [e]])
+          [[61]; [43]; [45]; [42]; [94]]
+          [fun x y => SCall fn_sum [x; y]; fun x y => SCall fn_max [x; y]; fun x y => SCall fn_sum3 [x; y; SNum [50]];
+           fun x y => SCall fn_cnt [x; y]; fun x y => SCall fn_avg2 [x; y]].
 
 (* ---------- assignments ---------- *)
 Definition bool_assigns : list (list bool) :=
@@ -166,8 +180,9 @@ Inductive c19_body :=
 | CBoolExpl (flags : list bool) (toks : option (list (N * str))) (src : sexp) (on off : N)
 | CFloatEnum (flags : list bool) (n : nat) (idx : N) (on off : list Z)
 | CFloatExpl (flags : list bool) (toks : option (list (N * str))) (src : sexp) (on off : list Z)
-| CFloatVarEnum (unary : list str) (flags : list bool) (n : nat) (idx : N) (on off : list Z)
-| CFloatVarExpl (unary : list str) (flags : list bool) (toks : option (list (N * str))) (src : sexp) (on off : list Z).
+| CFloatVarEnum (unary : list str) (strict : bool) (flags : list bool) (n : nat) (idx : N) (on off : list Z)
+| CFloatVarExpl (unary : list str) (strict : bool) (flags : list bool) (toks : option (list (N * str))) (src : sexp)
+                (on off : list Z).
 
 (* float observations travel as a flat list of integers, two per assignment: m and e of the value m*2^e;
    (0,1) = -0, (+-1,100001) = +-Inf, (0,100002) = NaN, (0,100003) = an error; [] = Parse/Generate failed *)
@@ -288,8 +303,8 @@ Definition c19_im (c : c19_case) : bool :=
           fl_res_ok ron (fl_obs on) && fl_res_ok roff (fl_obs off)
       | None => false
       end
-  | CFloatVarEnum unary flags n idx on off =>
-      let cfg := with_flags flags (float_var_cfg unary) in
+  | CFloatVarEnum unary strict flags n idx on off =>
+      let cfg := with_flags flags (float_var_cfg unary strict) in
       let al := float_var_alpha unary in
       let e := unrank al (counts al n) (S n) n idx in
       match flat cfg (layout_of idx) e with
@@ -298,8 +313,8 @@ Definition c19_im (c : c19_case) : bool :=
           fl_res_ok ron (fl_obs on) && fl_res_ok roff (fl_obs off)
       | None => false
       end
-  | CFloatVarExpl unary flags toks src on off =>
-      let cfg := with_flags flags (float_var_cfg unary) in
+  | CFloatVarExpl unary strict flags toks src on off =>
+      let cfg := with_flags flags (float_var_cfg unary strict) in
       match case_toks cfg toks src with
       | Some ts =>
           let '(ron, roff) := results2 cfg float_args ts float_assigns in
@@ -337,12 +352,12 @@ Definition c19_is (c : c19_case) : bool :=
   | CFloatExpl flags _ src on off =>
       let s := spec_results (with_flags flags float_cfg) float_args src float_assigns in
       fl_spec_ok s (fl_obs on) && fl_spec_ok s (fl_obs off)
-  | CFloatVarEnum unary flags n idx on off =>
-      let cfg := with_flags flags (float_var_cfg unary) in
+  | CFloatVarEnum unary strict flags n idx on off =>
+      let cfg := with_flags flags (float_var_cfg unary strict) in
       let al := float_var_alpha unary in
       let s := spec_results cfg float_args (unrank al (counts al n) (S n) n idx) float_assigns in
       fl_spec_ok s (fl_obs on) && fl_spec_ok s (fl_obs off)
-  | CFloatVarExpl unary flags _ src on off =>
-      let s := spec_results (with_flags flags (float_var_cfg unary)) float_args src float_assigns in
+  | CFloatVarExpl unary strict flags _ src on off =>
+      let s := spec_results (with_flags flags (float_var_cfg unary strict)) float_args src float_assigns in
       fl_spec_ok s (fl_obs on) && fl_spec_ok s (fl_obs off)
   end.
